@@ -1,4 +1,5 @@
 import PyYetiVerif.Model.Op4
+import PyYetiVerif.Model.Op4Sparse
 /-!
 Model of the REPAIR CANDIDATES for findings F2 and F3 of pyyeti/nastran/op4.py (corpus/c04_F2_candidate_fix.diff,
 corpus/c04_F3_candidate_fix.diff).  /repo is not patched: nothing here is used by the current check of C04; the
@@ -65,6 +66,31 @@ def encFileWordsFx (e : Endian) : List (Layout × Mat) → Option (List Nat)
 
 def encFileBytesFx (e : Endian) (ms : List (Layout × Mat)) : Option (List Nat) :=
   (encFileWordsFx e ms).map (bytesOfWords e)
+
+/-- the record length of the column's record, patched writer (0 when the column writes none) -/
+def recLenFx (lay : Layout) (cplx : Bool) (col : List Entry) : Nat :=
+  match lay with
+  | .nonbigmat => match stringsFx cplx col with
+    | [] => 0
+    | ss => (3 + nwordsNonbig cplx ss) * 4
+  | l => recLen l cplx col
+
+/-- the patched `_write_binary*` of one ndarray matrix with every `struct.pack` checked (`writeMatWords`) -/
+def writeMatWordsFx (e : Endian) (lay : Layout) (m : Mat) : Except WriteErr (List Nat) :=
+  if m.rows > 2147483647 ∨ m.cols.length > 2147483647 then .error .valueError
+  else if m.form < 2147483648 ∧ m.cols.length + 1 < 2147483648 ∧
+      m.cols.all (fun col => decide (recLenFx lay m.cplx col < 2147483648)) = true then
+    match encMatWordsFx e lay m with
+    | some ws => .ok ws
+    | none => .error .structError
+  else .error .structError
+
+def writeFileWordsFx (e : Endian) : List (Layout × Mat) → Except WriteErr (List Nat)
+  | [] => .ok []
+  | (l, m) :: t => do
+    let a ← writeMatWordsFx e l m
+    let b ← writeFileWordsFx e t
+    pure (a ++ b)
 
 /-! ## F3: every value in its field -/
 
